@@ -391,7 +391,10 @@ some cell of the operation lies on a requested qudit, inside that qudit's cycle 
 between `start` and `end`; with `exclude`, *every* cell of the operation lies on requested
 qudits inside their intervals.  Each operation occurs once, and cycles are visited in
 order (ascending, or descending with `reverse`).  (Within one cycle the order is that of the
-first requested cell of each operation, `specIter`.) -/
+first requested cell of each operation, `specIter`.)  `ItArgsOK` only asks that the qudits
+of an explicit region exist and that the cycle of an explicit `end` exists — outside that the
+real iterator raises IndexError as soon as it visits a cell outside the grid; negative
+coordinates of `start`/`end` and empty circuits are covered. -/
 theorem C06_restricted_iter {c : Circ P α} (hwf : c.WF) {a : ItArgs} {cfg : ItCfg}
     (hnd : isDefaultArgs a = false)
     (hcfg : mkCfg c.radixes.length c.numCycles a = .ok cfg) (ha : ItArgsOK c a) :
@@ -426,15 +429,12 @@ example : ∃ cfg, mkCfg nvCirc.radixes.length nvCirc.numCycles nvArgs = .ok cfg
   (mkCfg_ok_iff _ _ nvArgs _).2 ⟨_, _, rfl, by decide, rfl⟩ |> fun h => ⟨_, h⟩
 
 example : ItArgsOK nvCirc nvArgs := by
-  refine ⟨?_, ?_, ?_, ?_, ?_⟩
+  refine ⟨?_, ?_⟩
   · intro r h e he
     simp only [nvArgs, Mode.region.injEq] at h
     subst h
     simp only [List.mem_cons, List.not_mem_nil, or_false] at he
     rcases he with rfl | rfl <;> decide
   · intro e h; cases h
-  · intro _ e h; cases h
-  · intro h; cases h
-  · intro _ _; decide
 
 end BqVerif.C06
